@@ -113,7 +113,31 @@ def build(unit, repo=None, out_dir=None, canary=False):
             srcs[path] = _read(path)
         src = srcs[path]
         rep = []
-        s, en = X.find_item(src, "fn", e["name"], within=e.get("within"))
+        try:
+            s, en = X.find_item(src, "fn", e["name"], within=e.get("within"))
+        except X.ExtractError as ex:
+            # R10 (relocation): a free function that is no longer in the file the contract names, but exists exactly once, with that
+            # name, in another file of the same source directory, is the same real code moved - take it from there and say so.
+            if e.get("within") or not str(ex).startswith("lost anchor"):
+                raise
+            hits = []
+            d = os.path.dirname(path)
+            for fn_ in sorted(os.listdir(d)):
+                q = os.path.join(d, fn_)
+                if q == path or not fn_.endswith(".rs"):
+                    continue
+                if q not in srcs:
+                    srcs[q] = _read(q)
+                try:
+                    s2, e2 = X.find_item(srcs[q], "fn", e["name"], within=None)
+                    hits.append((q, s2, e2))
+                except X.ExtractError:
+                    pass
+            if len(hits) != 1:
+                raise
+            q, s, en = hits[0]
+            src = srcs[q]
+            rep.append({"rule": "R10", "before": e["src"], "after": os.path.relpath(q, repo), "count": 1})
         text = src[s:en]
         c = dict(e)
         if e.get("implheader") and " for " in e["implheader"]:
